@@ -1512,6 +1512,20 @@ pub fn generate(ctx: &mut GenCtx) {
         emit_ser(ctx, 1, &[[T::Bnode(b.to_string()), T::Iri("http://ex.org/p".into()), T::Bnode(b.to_string())]]);
         ctx.stats.bump("bnode_case");
     }
+    // distinct blank nodes whose labels would collide if the serialiser renamed some of them to
+    // generated names (b0, b1, rio1, riog00000001 ...): every non-ASCII NCName label next to every
+    // generated-looking one, both orders
+    for odd in ["é", "b\u{B7}1", "_u", "x.y"] {
+        for plain_l in ["b0", "b1", "rio1", "riog00000001"] {
+            let (x, y) = (T::Bnode(odd.to_string()), T::Bnode(plain_l.to_string()));
+            let px = T::Iri("http://ex.org/p".into());
+            let l1 = T::Lit("1".into(), format!("{}string", XSD));
+            let l2 = T::Lit("2".into(), format!("{}string", XSD));
+            emit_ser(ctx, 0, &[[x.clone(), px.clone(), l1.clone()], [y.clone(), px.clone(), l2.clone()]]);
+            emit_ser(ctx, 2, &[[y.clone(), px.clone(), l2.clone()], [x.clone(), px.clone(), y.clone()], [x.clone(), px.clone(), l1.clone()]]);
+            ctx.stats.bump("bnode_collision_case");
+        }
+    }
     // structure: empty graph, grouping by consecutive subject, duplicates, large indentation
     let a = T::Iri("http://ex.org/a".into());
     let b = T::Bnode("a".into());
